@@ -474,3 +474,30 @@ def _ceval(n, env):
         if isinstance(n.func, ast.Name) and n.func.id == "len" and len(n.args) == 1:
             return len(_ceval(n.args[0], env))
     raise NotEvaluable(text(n)[:60])
+
+
+def flag_values(events, var, domain, since=0):
+    """the values of `domain` the variable can hold given every guard on the event list that compares it with
+    literals (==, !=, <, <=, >, >=, in, not in; either orientation), from event index `since` on"""
+    ok = set(domain)
+    for e in events[since:]:
+        if e.kind != "guard":
+            continue
+        g = e.node
+        o = oriented(g, lambda n_: access_path(n_) == var)
+        sat = None
+        if o is not None and is_const(o[2]) and o[1] in (ast.Eq, ast.NotEq, ast.Lt, ast.LtE, ast.Gt, ast.GtE):
+            c = const_value(o[2])
+            try:
+                sat = {v for v in domain if {ast.Eq: v == c, ast.NotEq: v != c, ast.Lt: v < c, ast.LtE: v <= c, ast.Gt: v > c, ast.GtE: v >= c}[o[1]]}
+            except TypeError:
+                sat = None
+        elif isinstance(g, ast.Compare) and len(g.ops) == 1 and isinstance(g.ops[0], (ast.In, ast.NotIn)) and access_path(g.left) == var \
+                and isinstance(g.comparators[0], (ast.Tuple, ast.List, ast.Set)) and all(is_const(x) for x in g.comparators[0].elts):
+            vals = [const_value(x) for x in g.comparators[0].elts]
+            sat = {v for v in domain if v in vals}
+            if isinstance(g.ops[0], ast.NotIn):
+                sat = set(domain) - sat
+        if sat is not None:
+            ok &= sat if e.val else (set(domain) - sat)
+    return ok
